@@ -227,7 +227,8 @@ pub fn raster_case(data: &[u8]) -> c13::Case {
         4 => c13::Fit::Both(side * 4 + c.below(200) as u32, side * 4 + c.below(200) as u32),
         _ => c13::Fit::Height(side * (1 + c.below(5) as u32)),
     };
-    c13::Case { build, cfg, fit }
+    let fit_order = c.u8() % 4;
+    c13::Case { build, cfg, fit, fit_order }
 }
 
 pub fn frame_case(data: &[u8]) -> c18::Case {
